@@ -193,6 +193,9 @@ pub fn run(prop: &str, cfg: &Cfg) -> Report {
     for k in 0..n {
         let idx = k * cfg.shards as u64 + cfg.shard as u64;
         one_case(prop, kinds[(idx % 3) as usize], (cfg.seed ^ salt << 56).wrapping_mul(2_038_074_743).wrapping_add(idx), &mut rep);
+        if rep.enough() {
+            break;
+        }
     }
     rep
 }
